@@ -20,7 +20,7 @@ BOUNDS = {
               "N": [2], "operators": ["diff", "interp"], "components": ["X", "Y"], "extra dims": ["none", "t before face"]},
     "thorough": {"decompositions": "+ (3,2),(2,3)", "N": [2, 3]},
 }
-OUTSIDE = ["reversed links for vectors (excluded by the statement)", "non-centre targets", "open edges under a rule other than fill 0 when a face is rotated", "float rounding"]
+OUTSIDE = ["reversed links for vectors (excluded by the statement)", "non-centre targets", "open edges under a rule other than fill 0 when a face is rotated", "float rounding", "vector components of different dtypes (seed C04-d)"]
 ASSUMPTIONS = ["input data finite"]
 SWEEPS = {"int64": 2}
 
